@@ -67,6 +67,7 @@ def configs(tier, seed):
                 out.append({"kind": "single", "l": l, "K": K, "M": M, "pat": pat, "t": t, "npts": 8})
     for l, npts in ((2, 1), (5, 50), (0, 50), (6, 1)):
         out.append({"kind": "single", "l": l, "K": 2, "M": 2, "pat": 1, "t": "spherical", "npts": npts})
+    out.append({"kind": "single", "l": 1, "K": 2, "M": 1, "pat": 1, "t": "cartesian", "npts": 3})  # 3 functions x 3 points
     for npts in (2, 3, 4, 5, 6, 7):  # every small point count (a layout guess can only go wrong at a particular count)
         out.append({"kind": "single", "l": 1 + npts % 2, "K": 2, "M": 1, "pat": 1, "t": ("cartesian", "spherical")[npts % 2],
                     "npts": npts})
